@@ -7,6 +7,7 @@ import (
 	"go/types"
 	"os"
 	"path/filepath"
+	"regexp"
 	"sort"
 	"strings"
 	"time"
@@ -309,6 +310,9 @@ func cmdBaseline(args []string) {
 				fmt.Printf("not in baseline (slow, %.1fs): %s\n", r.TimeS, r.Ob.Name)
 				continue
 			}
+			if r.Ob.Canary && strings.Contains(r.Ob.Name, "/canary/return#") {
+				continue // per-return reachability is a diagnostic (dead code is legal); only exit-reachable is claimed
+			}
 			if discharged(r) {
 				names = append(names, r.Ob.Name)
 			} else {
@@ -355,8 +359,10 @@ func cmdCheck(args []string) {
 	}
 	base := loadBaseline()
 	claimed := map[string]bool{}
+	claimedBase := map[string]bool{}
 	for _, n := range base.Properties[prop] {
 		claimed[n] = true
+		claimedBase[clauseBase(n)] = true
 	}
 	known := map[string]knownFinding{}
 	for _, k := range loadKnown() {
@@ -384,9 +390,21 @@ func cmdCheck(args []string) {
 	var violations []*Result
 	var knownHit []string
 	var unclaimed []string
+	var deadReturns []string
 	for _, r := range run.results {
 		regenerated[r.Ob.Name] = true
+		// a contract clause is claimed for every place it applies: a new instance (another call site, another
+		// return or loop edge) of a claimed clause is claimed too
+		if !claimed[r.Ob.Name] && contractKind(r.Ob.Kind) && claimedBase[clauseBase(r.Ob.Name)] {
+			claimed[r.Ob.Name] = true
+		}
 		ok := discharged(r) || !failed(r)
+		if r.Ob.Canary && strings.Contains(r.Ob.Name, "/canary/return#") {
+			if failed(r) {
+				deadReturns = append(deadReturns, r.Ob.Name+" ["+r.Ob.Pos+"]")
+			}
+			continue
+		}
 		rec := obRecord{Name: r.Ob.Name, Kind: r.Ob.Kind, Func: r.Ob.Func, Descr: r.Ob.Descr, Pos: r.Ob.Pos,
 			Status: r.Status, Solver: r.Solver, TimeS: r.TimeS, SMTFile: r.File, Claimed: claimed[r.Ob.Name]}
 		records = append(records, rec)
@@ -460,6 +478,9 @@ func cmdCheck(args []string) {
 	if exit == 0 && nClaimed == 0 {
 		fmt.Printf("UNDECIDED property=%s reason=no claimed obligation was generated\n", prop)
 		exit = 2
+	}
+	for _, d := range deadReturns {
+		unclaimed = append(unclaimed, d+" (return statement unreachable under the contracts: dead code or over-strong assumption; diagnostic only)")
 	}
 	writeEvidence(p, run, prop, *tier, records, nClaimed, nDischarged, len(violations), knownHit, unclaimed, undecided, time.Since(start).Seconds())
 	fmt.Printf("%s %s: %d functions under contract, %d/%d claimed obligations discharged, %d further obligations generated (%d not discharged, not claimed), %d violations, %.1fs\n",
@@ -574,3 +595,20 @@ func writeEvidence(p *Prog, run *checkRun, prop, tier string, records []obRecord
 
 // clauses of each property statement that the contracts do not decide (repeated in evidence)
 var undecidedClauses = map[string][]string{}
+
+var reInstance = regexp.MustCompile(`(#\d+)?(@e\d+)?$`)
+
+// clauseBase strips the instance suffixes (#k ordinal, @e<k> edge copy) from an obligation name.
+func clauseBase(name string) string {
+	return reInstance.ReplaceAllString(name, "")
+}
+
+// contractKind: obligations that come from a labelled clause of a contract (as opposed to automatic safety
+// conditions, which are tied to one expression of the code).
+func contractKind(kind string) bool {
+	switch kind {
+	case "ensures", "callsite", "inv-entry", "inv-preserve", "iter-ensures", "lock-held":
+		return true
+	}
+	return false
+}
